@@ -297,6 +297,41 @@ def convention_case(ref, case):
     return None
 
 
+def internal_symbol_cases():
+    """For every class whose evaluate() creates its own bound variable (Dummy / summation index): a user
+    symbol with the same name and assumptions is substituted for an argument."""
+    out = []
+    for q, c in U.decorated().items():
+        sf = U.sym_fields(c)
+        if U.attr_fields(c) or not hasattr(c, "evaluate") or G.is_array_class(q):
+            continue
+        args = [sp.Symbol(n) for n in ("x", "y", "z", "u", "v", "w", "t")[:len(sf)]]
+        for j, f in enumerate(sf):
+            if f.name in ("l", "angular_momentum"):
+                args[j] = sp.Symbol("L")
+        try:
+            inst = c(*args)
+            ev = inst.evaluate()
+        except Exception:  # noqa: BLE001
+            continue
+        internal = {d for d in ev.atoms(sp.Dummy)}
+        for node in sp.preorder_traversal(ev):
+            if isinstance(node, sp.Sum):
+                internal |= {v for v in node.variables}
+        for d in sorted(internal, key=str):
+            twin = sp.Symbol(d.name, **{k: v for k, v in d.assumptions0.items() if k != "commutative"})
+            ir = U.to_ir(inst)
+            key = [a for a in args if a.name != "L"][:1]
+            if not key:
+                continue
+            er = [(U.to_ir(key[0]), U.to_ir(twin))]
+            out.append((ir, er))
+            if any(a.name == "L" for a in args):
+                out.append((ir, er + [(("Y", "Symbol('L')"), ("N", 1, 1))]))
+                out.append((U.to_ir(inst.xreplace({sp.Symbol("L"): sp.Integer(1)})), er))
+    return out
+
+
 def lambda_attrs():
     from ampform.dynamics.phasespace import BreakupMomentumSquared, PhaseSpaceFactor
 
@@ -353,8 +388,21 @@ def gen_cases(seed, n):
                       (("U", "ampform.kinematics.phasespace.Kallen", [ps_g, ("Y", "Symbol('y')"), s], []), gs)):
         cases.append({"kind": "commute", "ir": tree, "er": [(key, ("N", 0, 1))]})
         cases.append({"kind": "commute_subs", "ir": tree, "er": [(key, ("N", 0, 1))]})
-    for tree in (ps_b, ps_g, ps_n, ps_):
+    # pool values that coincide (explicitly, or after the map): one term per ENTRY of the pool
+    c_, b_ = ("Y", "Symbol('c')"), ("Y", "Symbol('b')")
+    ps_ac = ("A", G.POOLSUM, [("A", pw, [x, i_]), pool(i_, a, c_)])
+    ps_11 = ("A", G.POOLSUM, [("A", pw, [x, i_]), pool(i_, one, one)])
+    ps_b2 = ("A", G.POOLSUM, [("A", G.POOLSUM, [("A", pw, [x, ("A", mul, [i_, j_])]), pool(j_, b_, two)]), pool(i_, a, three)])
+    for tree, er in ((ps_ac, [(a, c_)]), (ps_ac, [(a, one), (c_, one)]), (ps_b2, [(b_, two)]),
+                     (("U", "ampform.kinematics.phasespace.Kallen", [ps_ac, ("Y", "Symbol('y')"), s], []), [(a, c_)])):
+        cases.append({"kind": "commute", "ir": tree, "er": er})
+        if len(er) == 1:
+            cases.append({"kind": "commute_subs", "ir": tree, "er": er})
+    for tree in (ps_b, ps_g, ps_n, ps_, ps_11, ps_ac):
         cases.append({"kind": "poolsum_value", "ir": tree})
+    # substitution images that are user symbols NAMED like a class's internal (bound/Dummy) variable
+    for ir_, er_ in internal_symbol_cases():
+        cases.append({"kind": "commute", "ir": ir_, "er": er_})
     # calling conventions (positional / keywords in any order / mixed / defaults skipped), library and user classes
     y_ = ("Y", "Symbol('y')")
     conv_trees = [("U", "ampform.kinematics.lorentz.BoostZMatrix", [("Y", "Symbol('b')"), ("Y", "Symbol('n')")], []),
